@@ -217,6 +217,10 @@ Definition fval_values (f : fval) : list text :=
 Definition flat_doc (fl : list (text * fval)) : list (text * list text) :=
   map (fun kf => (fst kf, fval_values (snd kf))) fl.
 
+(** a key whose list of values is empty contributes no pair to a query string *)
+Definition sent_doc (fl : list (text * fval)) : list (text * list text) :=
+  filter (fun kv => negb (is_nil (snd kv))) (flat_doc fl).
+
 (** a value the user code may hold (erased form) and its sparse reading: arrays are labelled
     0, 1, 2, ... and primitive arrays use repeated keys, as object_to_simple_dict writes them *)
 Fixpoint number_from {A} (i : Z) (l : list A) : list (Z * A) :=
